@@ -10,6 +10,16 @@ CHECKS = {
          "Every length 0..=1024 (hashes), 0..=300 (Salsa20), every key length (ARC4), every split point, every buffer length 0..=200 and difference/needle position for the SIMD helpers under every CPU-feature subset of the host are enumerated; keys/IVs/seeds/block indices beyond that are sampled. Agreement with an independent reference on this domain is the strongest evidence execution can give for 'computes the published function'.",
          "Trusted: the reference implementations in harness/engine/src/refimpl (pinned by the published test vectors, run at setup and at the start of every run); host CPU features bound the SIMD subsets; counter carry past 2^32 blocks not reachable.",
          "DESIGN.md §3 C09"),
+ "C05": ("pbt+enum", "exploration",
+         "model-based stateful testing: generated operation histories (with a Burst combinator filling the 1260-entry update section) interpreted against IndexManager / ResidencyDb and a BTreeMap reference model, compared after every operation; exhaustive enumeration of the fill-boundary scenarios",
+         "Histories over add/update/status/remove/flush/save+reload/clear_bucket (and mark/delete/save/load for residency) with keys constructed into one bucket, shared 9-byte prefixes and field-limit locations; after every op lookup, enumeration, counts and the returned booleans are compared with the model. The boundary grid (fill 1259/1260/1261 x mutation x reload/flush) is enumerated completely.",
+         "Trusted: the BTreeMap model and the harness's bucket solver (which uses the crate's own bucket_for_key); ext4/tmpfs semantics for save+reload. Histories are bounded (<= ~30 ops plus bursts <= 1500).",
+         "DESIGN.md §3 C05"),
+ "C10": ("pbt+enum", "exploration",
+         "model-based stateful testing: generated put/get/remove/clear/size/stats histories over every eviction policy and limit grid against a latest-value model with conservative (may-evict) clauses; enumeration of the paused-clock background-cleanup scenarios",
+         "Every policy x max_entries x max_memory_bytes x default-TTL configuration is sampled with histories of up to 60 ops over a key pool larger than capacity; disk histories include drop-and-recreate on the same directory; the five oracle clauses of DESIGN §3 C10 are judged after every op. Background cleanup is enumerated on tokio's paused clock (no wall-clock verdicts).",
+         "Trusted: the model; TTLs are only ZERO or 1 h so elapsed real time never decides a verdict; tokio paused clock for the cleanup scenario.",
+         "DESIGN.md §3 C10"),
 }
 
 NOT_YET = "check not built yet in this session (work in progress; see DESIGN.md §3 for the planned generator and oracle)"
